@@ -1,6 +1,6 @@
 // append-to: src/terminal.rs
 // harness: k_terminal_gc_primary props=C13,C14 fns=Terminal::gc,Buffer::gc,Buffer::trim_scrollback kind=bounded tier=quick timeout=900 obligation="Terminal::gc(gc_rel on the primary screen: trims the buffer and hands the drained lines out in order)" bound="1x1 terminal, limit 1, 3 scrollback lines"
-// harness: k_terminal_gc_alt props=C13,C14,C16 fns=Terminal::gc,Buffer::gc,Buffer::trim_scrollback kind=bounded tier=thorough timeout=1800 obligation="Terminal::gc(gc_rel on the alternate screen: trims to the visible rows and hands nothing out)" bound="1x1 terminal, 3 scrollback lines"
+// harness: k_terminal_gc_alt props=C13,C14,C16 fns=Terminal::gc,Buffer::gc,Buffer::trim_scrollback kind=bounded tier=quick timeout=600 obligation="Terminal::gc(gc_rel on the alternate screen: trims to the visible rows and hands nothing out)" bound="1x1 terminal, 3 scrollback lines"
 // harness: k_terminal_gc_other props=C13,C14,C16 fns=Terminal::gc,Buffer::gc,Buffer::trim_scrollback kind=bounded tier=quick timeout=600 obligation="Terminal::gc(gc_rel: the inactive buffer, with a trim pending, is left alone)" bound="1x1 terminal, limit 0, primary parked with one scrollback line and a pending trim, alternate screen active"
 #[cfg(kani)]
 mod verif_kani_terminal {
